@@ -371,13 +371,14 @@ impl Session {
     /// Output lines may carry a second part after ` ## `: observations that are OUTSIDE the property's projection (things the
     /// property does not constrain). Only the part before ` ## ` decides agreement; a difference confined to the second part
     /// is DRIFT: reported (`DRIFT property=… outside-projection …`), recorded in the evidence, never affects the exit code.
+    /// (If the model side prints no second part, the implementation's second part is informational only.)
     fn first_disagreement(&self, c: &Case, model: &[String]) -> Option<usize> {
         (0..c.exp.len()).find(|&i| primary_part(&c.exp[i]) != primary_part(model.get(i).map(|s| s.as_str()).unwrap_or("<missing>")))
     }
     fn first_drift(&self, c: &Case, model: &[String]) -> Option<usize> {
         (0..c.exp.len()).find(|&i| {
             let m = model.get(i).map(|s| s.as_str()).unwrap_or("");
-            primary_part(&c.exp[i]) == primary_part(m) && drift_part(&c.exp[i]) != drift_part(m)
+            primary_part(&c.exp[i]) == primary_part(m) && !drift_part(m).is_empty() && drift_part(&c.exp[i]) != drift_part(m)
         })
     }
 
